@@ -53,10 +53,16 @@ X2_ALLOWED = {
 }
 
 
+def _step_fn(prog):
+    """Path::step, or the private helper it delegates the loop to."""
+    return body_fn_with(prog, P + "::step", "rt::object::Store::<T>::truncate", "rt::path::")
+
+
 def X2(ctx):
     prog = ctx.prog
     n = 0
-    for (adt, field), allowed in X2_ALLOWED.items():
+    for (adt, field), allowed0 in X2_ALLOWED.items():
+        allowed = expand_allowed(prog, allowed0, "rt::path::")
         for w in prog.writers().get((adt, field), []):
             fk = enclosing_fn(w["fn"])
             if prog.fns[w["fn"]].j.get("derived"):
@@ -71,7 +77,7 @@ def X2(ctx):
                         (adt.split("::")[-1], field, fk, sorted(x.split("::")[-1] for x in allowed)), site_str(prog, w["fn"], w["bb"]), detail=field)
     ctx.floor("X2", n, 16, "writers of Schedule/Load/Spurious fields")
     # value discipline of the step() writes
-    fk = P + "::step"
+    fk = _step_fn(prog)
     fn = prog.fn(fk)
     if fn is None:
         return
@@ -123,7 +129,7 @@ def X3(ctx):
     """Every `return true` of Path::step is dominated by a strict advance of the examined branch and by the truncation of everything
     deeper; `false` is returned only after the loop over all branches (in reverse)."""
     prog = ctx.prog
-    fk = P + "::step"
+    fk = _step_fn(prog)
     fn = need_fn(ctx, "X3", fk)
     if fn is None:
         return
@@ -193,8 +199,15 @@ def X3(ctx):
 
 def X4(ctx):
     prog = ctx.prog
-    fk = P + "::step"
+    fk = _step_fn(prog)
     fn = need_fn(ctx, "X4", fk)
+    if fn is not None and fk != P + "::step":
+        # the helper runs on every path of step()
+        sfn = prog.fn(P + "::step")
+        sinst = prog.ident(P + "::step")
+        hs = [b for (b, t, c) in prog.sites(sinst) if prog.callee_key(c) == fk]
+        if not (hs and every_path_passes(sfn.body, hs)):
+            ctx.bad("X4", P + "::step", "Path::step does not run its stepping helper on every path", sfn.loc(), detail="helper")
     if fn is not None:
         body = fn.body
         want = {"pos": lambda e: e[0] == "const" and e[1].get("int") == 0,
